@@ -13,6 +13,9 @@ type RuleSpec struct {
 	Family    string // integer, string, key, bytes, bool, enum, array, float, decimal, date, timestamp, object, map
 	Kind      TKind
 	Format    string // INT32 ...
+	// OutOfRange: a bound the field's format cannot hold; refusing the declaration is as good
+	// as compiling it to what it says
+	OutOfRange bool
 	Array     bool
 	Required  bool
 
@@ -191,6 +194,28 @@ func RuleSpecs() []*RuleSpec {
 						add(rs)
 					}
 				}
+			}
+		}
+	}
+	// integer bounds at and beyond the ends of the 32-bit formats
+	for _, f := range []struct {
+		k TKind
+		n string
+	}{{TInt32, "INT32"}, {TUint32, "UINT32"}, {TInt64, "INT64"}, {TUint64, "UINT64"}} {
+		for _, b := range []int64{2147483647, 2147483648, 4294967295, 4294967296, 4294967301} {
+			b := b
+			for _, which := range []string{"max", "min"} {
+				rs := &RuleSpec{Family: "integer", Kind: f.k, Format: f.n}
+				rs.OutOfRange = (f.k == TInt32 && b > 2147483647) || (f.k == TUint32 && b > 4294967295)
+				if which == "max" {
+					rs.Max = &b
+					rs.Attrs = []string{attr("rules.maximum", &b)}
+				} else {
+					rs.Min = &b
+					rs.Attrs = []string{attr("rules.minimum", &b)}
+				}
+				rs.ID = fmt.Sprintf("integer:%s:%s%d", f.n, which, b)
+				add(rs)
 			}
 		}
 	}
@@ -422,6 +447,9 @@ func OtherRuleSpecs() []*RuleSpec {
 func RuleCases() []*Case {
 	var out []*Case
 	for _, rs := range append(RuleSpecs(), OtherRuleSpecs()...) {
+		if rs.OutOfRange {
+			continue // the compiler may refuse these; C12 decides what they mean when it does not
+		}
 		out = append(out, &Case{ID: "rule:" + rs.ID, Family: "rules", Coord: "rules|" + rs.Family, P: rs.program(), Rule: rs})
 	}
 	return out
